@@ -829,7 +829,8 @@ func checkC13B(c C13BCase) (o Outcome) {
 		return fail(V("import-rejects-wellformed", "knut %v exits %d:\n%s", args, r.Exit, clip(r.Stderr, 800)))
 	}
 	if r.Stderr != "" {
-		return fail(V("import-stderr", "knut %v writes to stderr: %q", args, clip(r.Stderr, 400)))
+		// the statement is about the emitted journal (stdout); a warning on stderr is recorded, not judged
+		o.Labels = append(o.Labels, "stderr-on-success")
 	}
 	T := r.Stdout
 
